@@ -44,10 +44,24 @@ Definition events_between (s2 : L2.l2state) (lo hi : N) : list L2.wrec :=
 Definition honest_root (c : scfg) (s2 : L2.l2state) (lo hi : N) (v : N) (bh : bytes) : bytes :=
   output_root (L1.hash (c1 c)) v (build (L1.hash (c1 c)) (map (wleaf c) (events_between s2 lo hi))) bh.
 
-(* L2 messages that are system steps on their own: everything except deposits (which only the
-   relay step produces) and ExecuteMessages wrappers *)
+(* L2 messages that are system steps: EVERY L2 message, also nested in ExecuteMessages batches,
+   provided each deposit message in it is a faithful relay: its recipient, sender-on-L1, denoms
+   and amount are copied from the emitted L1 event of its sequence (sender, height and hook are
+   free).  [l2_plain] = neither a deposit nor a batch. *)
 Definition l2_plain (m : L2.msg) : bool :=
   match m with L2.MFinalizeDeposit _ | L2.MExecute _ _ => false | _ => true end.
+Definition relay_of (ev : L1.devent) (f : L2.fdep) : bool :=
+  bool_decide (L2.fd_from f = L1.e_from ev ∧ L2.fd_to f = L1.e_to ev ∧ L2.fd_denom f = L1.e_l2denom ev ∧
+               L2.fd_amt f = L1.e_amt ev ∧ L2.fd_base f = L1.e_l1denom ev).
+
+Fixpoint l2_adm (c : scfg) (s1 : L1.l1state) (m : L2.msg) {struct m} : bool :=
+  match m with
+  | L2.MFinalizeDeposit f =>
+      match find_event c s1 (L2.fd_seq f) with Some ev => relay_of ev f | None => false end
+  | L2.MExecute _ inner =>
+      (fix go (l : list L2.msg) : bool := match l with [] => true | x :: l' => l2_adm c s1 x && go l' end) inner
+  | _ => true
+  end.
 
 (* L1 messages that move no funds and emit nothing the bridge transports, for ANY bridge: the
    role / config / params updates, batch records, and the IBC environment changes *)
@@ -87,7 +101,7 @@ Definition other_donation (c : scfg) (m : L1.msg) : option (bytes * Z) :=
 Inductive smsg :=
 | SDeposit (e : L1.env) (sender to d : bytes) (amt : Z) (data : bytes)       (* L1 user deposit into the bridge *)
 | SSend1 (e : L1.env) (from to : N) (d : bytes) (amt : Z)                    (* L1 bank send; to the escrow = a donation *)
-| SL2 (m : L2.msg)                                                          (* L2 user / admin message *)
+| SL2 (m : L2.msg)                                                          (* any L2 message / batch whose deposits are faithful relays *)
 | SRelay (k : N) (executor : bytes) (height : N) (hook : L2.hookp)          (* relay of the event with sequence k *)
 | SPropose (e : L1.env) (proposer : bytes) (idx l2block lo hi v : N) (bh : bytes)   (* honest output over events (lo, hi] *)
 | SDelete (e : L1.env) (challenger : bytes) (idx : N)
@@ -136,7 +150,7 @@ Definition sys_step (c : scfg) (s : sys) (m : smsg) : sys * bool :=
                        else s', true)
       | r => r
       end
-  | SL2 m2 => if l2_plain m2 then lift2 c s m2 else (s, false)
+  | SL2 m2 => if l2_adm c (l1 s) m2 then lift2 c s m2 else (s, false)
   | SRelay k executor height hook =>
       match find_event c (l1 s) k with
       | Some ev => lift2 c s (L2.MFinalizeDeposit (relay_msg ev executor height hook))
